@@ -10,6 +10,7 @@ from engine import pat
 from engine.util import own_nodes, calls_with_nodes, where
 
 RULES = {
+    "R-16.9": "a server that answers with something that is not a response to the query is 'broken' and dropped: dns.query.BadResponse (and the other reply-format errors) derive from dns.exception.FormError, the class query_result() reads as 'remove this server'",
     "R-16.8": "a resolver with an LRU cache returns answers, never KeyError: the cache's dict and recency ring change together in every method (rule of C17 R-17.4 dict/ring pairing, run here directly because C17 adopts C16 rules)",
     "R-16.7": "the two resolvers see the same outcome classes: a timed-out query is dns.exception.Timeout on every backend (C18 R-18.6 adopted), because query_result() retries a Timeout but drops a server for any other OSError",
     "R-16.1": "the synchronous and asynchronous resolvers (resolve loops, helper lookups, every Nameserver.query/async_query pair) project onto the same decisions and call arguments (modulo `backend`)",
@@ -205,6 +206,11 @@ def run(model, rep, tier):
     from rules.common import presence_by_identity
     presence_by_identity(model, rep, "R-16.6", ("dns.resolver", "dns.asyncresolver", "dns.nameserver"), ("timeout", "lifetime", "ndots"), "an optional number",
                          "e.g. ndots = 0 is silently treated as 1 and search-list candidates are tried before the absolute name", 3, "dns.resolver / dns.asyncresolver / dns.nameserver")
+    for cq in ("dns.query.BadResponse", "dns.message.BadEDNS", "dns.message.BadTSIG", "dns.message.TrailingJunk", "dns.message.ShortHeader"):
+        ck = model.cls(cq)
+        rep.check(model.is_subclass(ck, "dns.exception.FormError"), "R-16.9", cq, f"{ck.file}:{ck.node.lineno}", "a FormError: the resolver drops the server",
+                  f"{cq} no longer derives from dns.exception.FormError: query_result() does not recognise it as a broken-server error, so the server stays in the mix and is asked again every round "
+                  "(LifetimeTimeout instead of NoNameservers)", stmt="formerror-family")
     from rules.c17 import check_lru_pairs
     check_lru_pairs(model, rep, "R-16.8")
     rep.share(model, "C18", {"R-18.1", "R-18.2", "R-18.4", "R-18.5", "R-18.6"}, "R-16.7", "_Resolution.query_result classifies exceptions: Timeout -> try again later, other OSError/FormError -> remove the server")
